@@ -19,7 +19,19 @@ func MakeSeed() Seed { return Seed{seedCtr.Add(1) * 0x9e3779b97f4a7c15} }
 // Bits is the number of significant hash bits (0 = all 64).
 var Bits atomic.Int32
 
+// Salt is mixed into every hash: a per-run value makes which keys collide a function of
+// the tape instead of a constant of the build.
+var Salt atomic.Uint64
+
+// Slots, if 1..4, reduces the lowest five bits of every hash to that many bits and leaves
+// the rest alone: a hash trie that consumes five bits per level then has few, crowded slots
+// at the root and well filled child nodes below them.
+var Slots atomic.Int32
+
 func degrade(h uint64) uint64 {
+	if k := Slots.Load(); k > 0 && k < 5 {
+		h = h&^31 | h&(uint64(1)<<uint(k)-1)
+	}
 	if b := Bits.Load(); b > 0 && b < 64 {
 		// keep the low and the high bits equal so that users of either end collide
 		m := uint64(1)<<uint(b) - 1
@@ -43,7 +55,7 @@ func Bytes(seed Seed, b []byte) uint64 {
 	for _, c := range b {
 		h = (h ^ uint64(c)) * 0x100000001b3
 	}
-	return degrade(mix(h))
+	return degrade(mix(h ^ Salt.Load()))
 }
 
 func String(seed Seed, s string) uint64 {
@@ -51,7 +63,7 @@ func String(seed Seed, s string) uint64 {
 	for i := 0; i < len(s); i++ {
 		h = (h ^ uint64(s[i])) * 0x100000001b3
 	}
-	return degrade(mix(h))
+	return degrade(mix(h ^ Salt.Load()))
 }
 
 func Comparable[T comparable](seed Seed, v T) uint64 {
@@ -95,7 +107,7 @@ func (h *Hash) WriteByte(b byte) error {
 	h.h = (h.h ^ uint64(b)) * 0x100000001b3
 	return nil
 }
-func (h *Hash) Sum64() uint64 { h.start(); return degrade(mix(h.h)) }
+func (h *Hash) Sum64() uint64 { h.start(); return degrade(mix(h.h ^ Salt.Load())) }
 func (h *Hash) Sum(b []byte) []byte {
 	x := h.Sum64()
 	return append(b, byte(x>>56), byte(x>>48), byte(x>>40), byte(x>>32), byte(x>>24), byte(x>>16), byte(x>>8), byte(x))
